@@ -70,6 +70,14 @@ impl Ctx {
         let op = rhs.split(' ').next().unwrap_or("").to_string();
         self.count(&format!("op:{}", op));
         let out = self.line(format!("{} = {}", reg, rhs));
+        if self.prop == "C16" {
+            // for C16 every operation is "the operation under test": a panic anywhere in a history is a failure with that history as
+            // its input (the library's documented preconditions are respected by the generators)
+            if let Val::Panic(site) = self.val(&reg) {
+                let scen = self.scenario.clone();
+                self.oracles.push(OracleRec { scenario: scen, name: "no-panic".into(), pass: false, key: format!("panic@{}", site), detail: format!("`{}` panicked at {}", rhs, site) });
+            }
+        }
         if let Some(o) = out {
             let cls = o.split(' ').nth(1).unwrap_or("?").to_string();
             if cls != "ok" { self.count(&format!("outcome:{}:{}", op, cls)); }
